@@ -301,10 +301,10 @@ def common_summaries():
         """exhaust an owning iterator model -> [(state, carry, [values])] (forks over symbolic presence of map entries)"""
         it = deref(ex, st, carry[idx]) if isinstance(carry[idx], Ref) else carry[idx]
         if isinstance(it, ListIter):
-            vals = [c.value for c in it.items[it.pos:]]
+            vals = [(Ref(c) if it.by_ref else c.value) for c in it.items[it.pos:]]
             it.pos = len(it.items)
             return [(st, carry, vals)]
-        if isinstance(it, MapIter) and not it.by_ref:
+        if isinstance(it, MapIter):
             outs = []
             pending = [(st, carry, [])]
             while pending:
@@ -319,10 +319,40 @@ def common_summaries():
                     if truth:
                         it2 = deref(ex, s2, c3[idx]) if isinstance(c3[idx], Ref) else c3[idx]
                         e2 = it2.items[it2.pos - 1]
-                        acc3 = list(acc3) + [Agg({0: e2[0], 1: e2[1]}, 'tuple')]
+                        if it2.by_ref:
+                            acc3 = list(acc3) + [Agg({0: Ref(Cell(e2[0], 'key')), 1: Ref(e2[1])}, 'tuple')]
+                        else:
+                            acc3 = list(acc3) + [Agg({0: e2[0], 1: e2[1]}, 'tuple')]
                     pending.append((s2, c3, acc3))
             return outs
         raise Unsupported(f"collect/extend from {it!r}")
+
+    @reg(r' as Iterator>::(try_for_each|for_each)::<')
+    def iter_for_each(ex, st, fn, argv):
+        """calls the closure once per element, in order; try_for_each stops at the first Err / None"""
+        is_try = '::try_for_each::<' in fn
+        outs = []
+        for (s, c, vals) in iter_items(ex, st, list(argv), 0):
+            clo = c[1]
+            if not vals:
+                outs.append((s, mk_ok(Unit()) if is_try else Unit()))
+                continue
+            def cont(ex2, st2, rv, rest, clo):
+                if is_try:
+                    e = rv
+                    if isinstance(e, Lazy):
+                        raise Unsupported('try_for_each: unmaterialised closure result')
+                    d = e.disc if isinstance(e.disc, int) else None
+                    if d is None:
+                        raise Unsupported('try_for_each: symbolic closure result')
+                    stop = (d == 1) if e.ty and 'Result' in e.ty else (d == 0)
+                    if stop:
+                        return rv
+                if not rest:
+                    return rv if is_try else Unit()
+                return ('CALL', clo, [rest[0]], ('custom', cont, rest[1:], clo))
+            outs.append((s, ('CALL', clo, [vals[0]], ('custom', cont, vals[1:], clo))))
+        return outs
 
     @reg(r' as Iterator>::collect::<Vec<(?!u8>).*>>$')
     def iter_collect_vec(ex, st, fn, argv):
